@@ -96,6 +96,9 @@ TABLES = ["s.a", "s.b", "s.c", "t.a", "d"]
 def gen_script(r, n):
     stmts = []
     for _ in range(n):
+        if stmts and r.random() < 0.2:
+            stmts.append(r.choice(stmts))        # the same statement again, verbatim
+            continue
         tpl, _nr = r.choice(TEMPLATES)
         w = r.choice(TABLES)
         r1 = r.choice(TABLES)
@@ -146,10 +149,25 @@ def main() -> int:
             hists.append([k, e, r.choice(kinds)])
 
     rows = []
+    shared_diff = 0
     for h in hists:
         holders = [make_holder(k) for k in h]
         abst = [abstract_holder(x) for x in holders]
-        rows.append((h, abst, impl_build(holders)))
+        res = impl_build(holders)
+        rows.append((h, abst, res))
+        if len(set(h)) < len(h):
+            # a statement repeated in the history, handed over as the very same holder object (what a caller that
+            # caches analysed statements does): the assembly must treat it like a fresh, equal holder
+            by_kind = {}
+            same = [by_kind.setdefault(k, x) for k, x in zip(h, holders)]
+            ck.count()
+            res2 = impl_build(same)
+            if res2 != res:
+                shared_diff += 1
+                spec_failures.append({"suite": "T1-repeated-holder-object", "history": h, "distinct_objects": res, "same_object": res2,
+                                      "spec": "a statement that occurs again in the script counts again (after a DROP or RENAME it re-creates its lineage), "
+                                              "whether or not the caller hands over the same holder object"})
+    dist["t1_repeated_object_diffs"] = shared_diff
     model = coq_eval(HEADER, [f"show_build {g_astmts(a)}" for _, a, _ in rows], shard=600)
     plain_rows = [(i, rw) for i, rw in enumerate(rows) if all(is_plain(a) for a in rw[1])]
     spec = dict(zip([i for i, _ in plain_rows],
